@@ -22,7 +22,8 @@ def drive_case(case, extra):
                 s2 = strify(parse(s1))
             except Exception as exc:  # noqa: BLE001
                 s2 = "<" + type(exc).__name__ + ">"
-    return {"id": case["id"], "e": case["e"], "s1": s1, "p": p, "s2": s2}
+    from harness.lexer import tokenize
+    return {"id": case["id"], "e": case["e"], "s1": s1, "p": p, "s2": s2, "toks": tokenize(s1)}
 
 
 def edges(e, acc=None):
@@ -80,6 +81,12 @@ def classify(out, verdicts, byid):
         if "edge" in sig:
             known_edges.append((tuple(sig["edge"]), sig))
     for v in verdicts:
+        if "drift" in v:
+            out.drift += 1
+            out.extra.setdefault("drift_examples", [])
+            if len(out.extra["drift_examples"]) < 5:
+                out.extra["drift_examples"].append({"text": byid[v["id"]]["s1"], "what": list(v["drift"])})
+            continue
         cl = list(v["cl"])
         if cl == ["SKIP"]:
             out.skipped += 1
@@ -110,7 +117,10 @@ def run(tier, seed, out):
     gen = kit.run_tlc("C06_Gen", f"C06_Gen_{tier}")
     kit.require_clean(gen, "C06 generation")
     out.add_tlc(gen)
-    cases = [p for p in gen.printed() if "e" in p]
+    printed = gen.printed()
+    cases = [p for p in printed if "e" in p]
+    design = [p for p in printed if "design" in p]
+    out.extra["design_level_failures_on_model"] = len(design)
     for i, c in enumerate(cases):
         c["id"] = i
     kit.log(f"C06: TLC generated {len(cases)} trees ({gen.wall:.1f}s)")
